@@ -14,7 +14,7 @@ executed on that side's account and every caller passes (lower, upper, lower, up
 Also decided: searches and resize flags agree between the encodings and packagings (C10.R3 instances and
 three C12.R5 pairs re-decided here);
 Not decided: equality of answers over update sequences; well-formedness over histories."""
-from analysis import cfg, atoms as A, preach, layout as L, writes
+from analysis import cfg, atoms as A, preach, layout as L, writes, poly as P
 from analysis.ir import callee_path, AnchorMissing
 from analysis.prov import prov_of, prov_assuming, strip, leaves, subterms, show
 from analysis.match import is_param, is_field, is_call, const_val, sh, mentions, fail_conditions
@@ -40,11 +40,16 @@ def R1_constants(run):
         (PD + "DYNAMIC_TICK_INITIALIZED_LEN", 113), (PD + "DYNAMIC_TICK_UNINITIALIZED_LEN", 1), (PD + "TICKS_MAX_USIZE", 113 * 88),
         ("state::tick_array::TICK_ARRAY_SIZE", 88), ("pinocchio::state::whirlpool::tick_array::TICK_ARRAY_SIZE", 88),
     ]
+    # private Pinocchio copies of a constant may also simply be the shared constant (the uses are checked by value in R2 / R4)
+    copy_of = {"pinocchio::ported::manager_tick_array_manager::TICK_INITIALIZATION_SIZE": "manager::tick_array_manager::TICK_INITIALIZATION_SIZE",
+               "pinocchio::state::whirlpool::tick_array::TICK_ARRAY_SIZE": "state::tick_array::TICK_ARRAY_SIZE"}
     for path, want in exp:
         v = cv(path)
         if v is None:
             alt = [p for p in facts.consts if p.endswith("::" + path.rsplit("::", 1)[-1]) and path.rsplit("::", 2)[-2] in p]
             v = cv(alt[0]) if len(alt) == 1 else None
+        if v is None and path in copy_of:
+            v = cv(copy_of[path])
         run.check("R1", "const:" + path.rsplit("::", 2)[-2] + "::" + path.rsplit("::", 1)[-1], v == want, "%s = %s, expected %s" % (path, v, want), detail="%s" % want)
     bs = L.borsh_size(facts, "state::dynamic_tick_array::DynamicTickData")
     run.check("R1", "payload-borsh-size", bs == cv("state::dynamic_tick_array::DynamicTickData::LEN"), "Borsh size of DynamicTickData is %d but LEN = %s" % (bs, cv("state::dynamic_tick_array::DynamicTickData::LEN")),
@@ -183,33 +188,33 @@ def R2_shift_bitmap_pairing(run):
 
 
 def _byte_offset_ok(fn, init_len, uninit_len):
+    """byte_offset(i) as a polynomial in (i, popcount(bitmap & ((1 << i) - 1))): uninit_len * i + (init_len - uninit_len) * popcount,
+    however the sum is associated (113 * p + (i - p) * 1 and i * 1 + p * 112 are the same quantity)."""
     pv = prov_of(fn)
+
+    def atom(x):
+        x = strip(x)
+        if is_param(x, "tick_offset"):
+            return "i"
+        if x[0] == "call" and x[1].endswith("count_ones"):
+            m = strip(x[2][0])
+            # bitmap & ((1 << off) - 1)
+            if m[0] == "bin" and m[1] == "BitAnd":
+                for (bm, mask) in ((strip(m[2]), strip(m[3])), (strip(m[3]), strip(m[2]))):
+                    if mask[0] == "bin" and mask[1] in ("Sub", "SubWithOverflow") and const_val(mask[3]) == 1:
+                        shl = strip(mask[2])
+                        if shl[0] == "bin" and shl[1] in ("Shl", "ShlUnchecked") and const_val(shl[2]) == 1 and is_param(shl[3], "tick_offset") and is_call(bm, "tick_bitmap"):
+                            return "popcount"
+            return "popcount?(%s)" % sh(m, 60)
+        return sh(x, 60)
     for bi, bb in enumerate(fn.blocks):
         if bb["t"]["k"] == "ret":
             for l in leaves(pv.local(0, bi, len(bb["s"]))):
                 if l[0] == "agg" and l[2] == "Ok":
                     t = strip(dict(l[3])["0"])
-                    if t[0] != "bin" or t[1] not in ("Add", "AddWithOverflow"):
-                        return False, sh(t, 200)
-                    parts = [strip(t[2]), strip(t[3])]
-                    ok_i = ok_u = False
-                    for p in parts:
-                        if p[0] == "bin" and p[1] in ("Mul", "MulWithOverflow"):
-                            a, b = strip(p[2]), strip(p[3])
-                            for (x, c) in ((a, b), (b, a)):
-                                if const_val(c) == init_len and x[0] == "call" and x[1].endswith("count_ones"):
-                                    m = strip(x[2][0])
-                                    # bitmap & ((1 << off) - 1)
-                                    if m[0] == "bin" and m[1] == "BitAnd":
-                                        for (bm, mask) in ((strip(m[2]), strip(m[3])), (strip(m[3]), strip(m[2]))):
-                                            if mask[0] == "bin" and mask[1] in ("Sub", "SubWithOverflow") and const_val(mask[3]) == 1:
-                                                shl = strip(mask[2])
-                                                if shl[0] == "bin" and shl[1] in ("Shl", "ShlUnchecked") and const_val(shl[2]) == 1 and is_param(shl[3], "tick_offset") and \
-                                                        (is_call(bm, "tick_bitmap")):
-                                                    ok_i = True
-                                if const_val(c) == uninit_len and x[0] == "bin" and x[1] in ("Sub", "SubWithOverflow") and is_param(x[2], "tick_offset") and mentions(x[3], lambda s: s[0] == "call" and s[1].endswith("count_ones")):
-                                    ok_u = True
-                    return ok_i and ok_u, sh(t, 200)
+                    got = P.poly(t, atom)
+                    want = {("i",): uninit_len, ("popcount",): init_len - uninit_len}
+                    return got == want, "%s  [= %s]" % (sh(t, 160), P.show_poly(got))
     return False, None
 
 
@@ -306,13 +311,22 @@ def R4_size_and_rent(run):
                         elif bi in f_reach and bi not in cfg.reach(fn, at.true_targets[0], cut_blocks=[at.block]):
                             conds.append((nm.s(at.term), False))
                     got[st["rv"]["agg"]["v"]] = conds
+        def canon_cond(c):
+            # `x != 0` holding is `x == 0` not holding
+            s_, t_ = c
+            if " Ne " in s_:
+                return s_.replace(" Ne ", " Eq "), not t_
+            return s_, t_
+        got = {k: sorted(set(canon_cond(c) for c in v)) for k, v in got.items()}
+
         def has(conds, needle, truth):
-            return any(needle(s) and t == truth for s, t in conds)
+            s_, t_ = canon_cond((needle, truth))
+            return any(s == s_ and t == t_ for s, t in conds)
         want = {
-            "TransferToTickArray": [(lambda s: s == "(0 Eq position.liquidity)", True), (lambda s: s == "(0 Ne position_update.liquidity)", True)],
-            "TransferToPosition": [(lambda s: s == "(0 Ne position.liquidity)", True), (lambda s: s == "(0 Eq position_update.liquidity)", True)],
-            "Increase": [(lambda s: s == "tick.initialized", False), (lambda s: s == "tick_update.initialized", True)],
-            "Decrease": [(lambda s: s == "tick.initialized", True), (lambda s: s == "tick_update.initialized", False)],
+            "TransferToTickArray": [("(0 Eq position.liquidity)", True), ("(0 Ne position_update.liquidity)", True)],
+            "TransferToPosition": [("(0 Ne position.liquidity)", True), ("(0 Eq position_update.liquidity)", True)],
+            "Increase": [("tick.initialized", False), ("tick_update.initialized", True)],
+            "Decrease": [("tick.initialized", True), ("tick_update.initialized", False)],
         }
         for v, reqs in want.items():
             conds = got.get(v)
